@@ -148,7 +148,7 @@ Theorem render_test_subtest s ok num name dir s' e :
   let l := render_test ok num name dir in
   rstrip l = l ->
   main_line s l = Ok (s', e) ->
-  tests_of e = [(match num with Some ds => digits_val ds | None => last_test s + 1 end,
+  tests_of e = [(line_number (last_test s) num,
                  strip name,
                  spec_status ok (match dir with Some (d, _, _) => Some d | None => None end),
                  match dir with Some (_, _, expl) => if nonempty expl then Some (strip expl) else None | None => None end)].
